@@ -42,13 +42,14 @@ var experiments = []struct {
 	{"write-park", expWritePark, false},
 	{"stress", expStress, false},
 	{"tty-attach", expTTYAttach, false},
+	{"lock-paths", expLockPaths, false},
 	{"concurrent-new", expConcurrentNew, true},
 }
 
 func main() {
 	cfg := &config{}
 	var (
-		runList      = flag.String("run", "", "comma separated experiments: cb-locked,park-probe,write-park,stress,tty-attach (the default set), concurrent-new (extra), or the word all for all five")
+		runList      = flag.String("run", "", "comma separated experiments: cb-locked,park-probe,write-park,stress,tty-attach,lock-paths (the default set), concurrent-new (extra), or the word all for all five")
 		child        = flag.Bool("child", false, "run the selected experiments in this process (used by the parent; findings are printed, no SUMMARY)")
 		outdir       = flag.String("outdir", "", "directory for child stderr logs and race reports (default: a new temp dir)")
 		noraceReason = flag.String("norace-reason", "", "why the binary was built without -race (set by run.sh)")
